@@ -115,6 +115,7 @@ def run(ctx):
                 ctx.violation("obligation", dict(triple=[P, s, C], sql=sql, broken="edges_ok' fails for this edge in some reachable context (Model/L1.bad_triples); the depth-2 statement itself round-trips"), no_input=True)
     rnd = ctx.rng("c03")
     g = gens.G(rnd, null_rate=0.04, max_depth=2)
+    g.locking = False
     n_ok = n_haz = 0
     stmts = []
     while len(stmts) < ctx.n(700, 12000):
